@@ -445,4 +445,305 @@ Proof.
     destruct (RQ_closed_result H zdecomp hd f c next (c_start c) dict' Hcl st4 o' n HC Hex Hle) as [(V1 & V2) Hdecode].
     rewrite Hsub, Hdd in Hdecode. split; [unfold digest_ok; rewrite <- Hsub; exact V2|exact Hdecode].
 Qed.
+
+(** the dictionary import of the first request: what a success establishes *)
+Lemma import_sound fuel st st1 :
+  r_err st = 0 -> fresh st -> r_dict st = None -> 0 < first_ulen hd ->
+  import_dict H zdecomp hd fuel (set_started (comp_reset (seek f st (data_offset hd))) true) = (true, st1) ->
+  dict_fact st1.
+Proof.
+  intros He (F1 & F2 & F3 & F4) Hdn Hfu E.
+  assert (Hex : exists c0 cs, cks = c0 :: cs).
+  { unfold first_ulen in Hfu. destruct (h_chunks hd) as [|c0 cs]; [lia|eauto]. }
+  destruct Hex as (c0 & cs & Eck).
+  assert (Hfu0 : first_ulen hd = c_ulen c0) by (unfold first_ulen; now rewrite Eck).
+  assert (Hsk : skip0 c0 = false).
+  { unfold skip0. destruct (N.eqb_spec (c_ulen c0) 0); [lia|apply andb_false_r]. }
+  destruct (chunk_sizes H zdecomp hd f Hstarts Hsizes [] c0 cs Eck) as [Hlt Hst0]. cbn in Hst0, Hlt.
+  unfold import_dict in E. unfold comp_reset, seek in E. rsimpl. rewrite He in E. change (0 <? 0) with false in E. cbv iota in E.
+  destruct (N.eqb_spec (first_ulen hd) 0) as [E0|_]; [lia|].
+  unfold comp_read_nd in E. rsimpl. rewrite He in E. change (0 <? 0) with false in E. cbn [negb] in E. cbv iota in E.
+  destruct (N.eqb_spec (first_ulen hd) 0) as [E0|_]; [lia|].
+  set (st' := set_started (set_dc (set_started (set_rest st (dropN (data_offset hd) f)) false) [] 0) true) in *.
+  destruct fuel as [|fuel]; [discriminate|].
+  assert (Hfr : fresh st') by (unfold st', fresh; rsimpl; repeat split; assumption).
+  rewrite (comp_loop_null H zdecomp hd false (first_ulen hd) st' c0 cs fuel Hfu Hfr eq_refl Eck Hsk) in E.
+  set (st0 := set_chash (set_idx st' (c0 :: cs)) (Some [])) in *.
+  assert (HQ0 : RQ H zdecomp hd f c0 cs 0 None st0 []).
+  { left. unfold RQopen, st0, st', set_chash, set_idx. rsimpl. rewrite F2, F3, F4.
+    split; [reflexivity|]. split; [reflexivity|]. split; [lia|]. split; [lia|].
+    split; [reflexivity|]. split; [reflexivity|].
+    destruct zs; [repeat split; reflexivity|split; [reflexivity|now left]]. }
+  pose proof (RQ_loop H zdecomp hd f c0 cs 0 None ltac:(lia) false (first_ulen hd) (S fuel) st0 [] false Hfu ltac:(cbn; lia) HQ0 eq_refl) as Hl.
+  destruct (comp_loop H zdecomp hd (S fuel) false (first_ulen hd) st0 [] false) as [[d| |] st2]; try discriminate.
+  destruct Hl as (HQ2 & Hd2 & Hex2 & _).
+  destruct (N.eqb_spec (len d) (first_ulen hd)) as [Hld|]; [|discriminate].
+  destruct (0 <? r_err st2) eqn:He2; [discriminate|].
+  unfold comp_init in E. rsimpl. rewrite He2 in E. cbv iota in E. injection E as <-.
+  right. split; [exact Hfu|]. exists d. rsimpl. split; [reflexivity|]. intros Ez.
+  exists c0, cs. split; [exact Eck|].
+  destruct HQ2 as [HO|HC].
+  { exfalso. destruct HO as (_ & A2 & _ & _ & _ & _ & A7). rewrite Ez in A7. destruct A7 as (_ & -> & _).
+    destruct Hex2 as [Hx|[Hx _]]; [cbn in Hx; lia|congruence]. }
+  destruct (RQ_closed_result H zdecomp hd f c0 cs 0 None ltac:(lia) st2 d (first_ulen hd) HC Hex2 ltac:(lia)) as [(V1 & V2) Hdec].
+  assert (Hsub : sub b 0 (c_clen c0) = stored b c0) by (unfold stored; now rewrite Hst0).
+  rewrite Hsub, Ez in *. split; [exact V2|]. rewrite Hdec. f_equal. apply takeN_all. lia.
+Qed.
+
+Lemma gcd_unfold fuel st k n :
+  zck_get_chunk_data H zdecomp hd f fuel st k n =
+  match skipn k cks with
+  | [] => (RErr (-1), st)
+  | c :: next =>
+      if 0 <? r_err st then (RErr (-1), st)
+      else if c_ulen c =? 0 then (ROk [], st)
+      else
+        match (if (0 <? first_ulen hd) && (match r_dict st with None => true | Some _ => false end) then
+                 match comp_init (comp_reset (seek f st (data_offset hd))) with
+                 | Some st1 => import_dict H zdecomp hd fuel st1
+                 | None => (false, comp_reset (seek f st (data_offset hd)))
+                 end
+               else (true, st)) with
+        | (false, st1) => (RErr (-1), st1)
+        | (true, st1) => gcd_main fuel st1 k n c next
+        end
+  end.
+Proof. reflexivity. Qed.
+
+(** ** soundness of one data request, on any file *)
+Theorem gcd_sound fuel st k n c next o st' :
+  DI st -> skipn k cks = c :: next ->
+  zck_get_chunk_data H zdecomp hd f fuel st k n = (ROk o, st') ->
+  DI st' /\
+  (0 < c_ulen c -> c_ulen c <= n ->
+     digest_ok c /\ spec_chunk_content zdecomp hd f k = Some (takeN (c_ulen c) o)).
+Proof.
+  intros HD Hsk E. rewrite gcd_unfold, Hsk in E.
+  destruct (0 <? r_err st) eqn:Her; [discriminate|].
+  destruct (N.eqb_spec (c_ulen c) 0) as [Hu0|Hu0].
+  { injection E as <- <-. split; [exact HD|]. intros Hu. lia. }
+  assert (Hmain : forall s, dict_fact s -> gcd_main fuel s k n c next = (ROk o, st') ->
+            DI st' /\ (0 < c_ulen c -> c_ulen c <= n ->
+               digest_ok c /\ spec_chunk_content zdecomp hd f k = Some (takeN (c_ulen c) o))).
+  { intros s Hdf Em. destruct (gcd_main_sound fuel s k n c next o st' Hsk Hu0 Hdf Em) as [Hd' Hc].
+    split.
+    { left. destruct Hdf as [[A1 A2]|[A1 (d0 & A2 & A3)]]; [left|right].
+      - split; [exact A1|congruence].
+      - split; [exact A1|]. exists d0. split; [congruence|exact A3]. }
+    intros _ Hle. destruct (Hc Hle) as [Hdig Hdec]. split; [exact Hdig|].
+    assert (Hex : exists c0 cs, cks = c0 :: cs).
+    { destruct (h_chunks hd) as [|c0 cs]; [destruct k; discriminate|eauto]. }
+    destruct Hex as (c0 & cs & Eck).
+    unfold spec_chunk_content. rewrite Eck at 1. rewrite Hsk.
+    destruct zs eqn:Ez; cbn [negb].
+    - destruct k as [|k']; [exact Hdec|].
+      assert (Hfu0 : first_ulen hd = c_ulen c0) by (unfold first_ulen; now rewrite Eck).
+      destruct Hdf as [[A1 A2]|[A1 (d0 & A2 & A3)]].
+      + rewrite <- Hfu0, A1, N.eqb_refl. now rewrite A2 in Hdec.
+      + destruct (N.eqb_spec (c_ulen c0) 0); [lia|].
+        destruct (A3 Ez) as (c0' & cs' & E1 & _ & E3). rewrite Eck in E1. injection E1 as <- <-.
+        rewrite E3. now rewrite A2 in Hdec.
+    - unfold decode_chunk in *. exact Hdec. }
+  destruct ((0 <? first_ulen hd) && match r_dict st with None => true | Some _ => false end) eqn:Hcond.
+  - apply andb_true_iff in Hcond. destruct Hcond as [Hfu Hdn]. apply N.ltb_lt in Hfu.
+    assert (Hdn' : r_dict st = None) by (destruct (r_dict st); [discriminate|reflexivity]).
+    assert (Hfr : fresh st).
+    { destruct HD as [[[A1 _]|[_ (d0 & A2 & _)]]|(_ & _ & A3)]; [lia|congruence|exact A3]. }
+    unfold comp_init in E.
+    change (r_err (comp_reset (seek f st (data_offset hd)))) with (r_err st) in E. rewrite Her in E. cbv iota in E.
+    change (r_started (comp_reset (seek f st (data_offset hd)))) with false in E. cbv iota in E.
+    destruct (import_dict H zdecomp hd fuel (set_started (comp_reset (seek f st (data_offset hd))) true)) as [[|] st1] eqn:Ei; [|discriminate].
+    apply N.ltb_ge in Her.
+    pose proof (import_sound fuel st st1 ltac:(lia) Hfr Hdn' Hfu Ei) as Hdf.
+    exact (Hmain st1 Hdf E).
+  - assert (Hdf : dict_fact st).
+    { destruct HD as [Hdf|(A1 & A2 & _)]; [exact Hdf|]. rewrite A2 in Hcond. apply N.ltb_lt in A1. rewrite A1 in Hcond. discriminate. }
+    exact (Hmain st Hdf E).
+Qed.
+
+(** ** every history of requests *)
+Lemma comp_step_err ud n st out frd code st' :
+  comp_step H zdecomp hd ud n st out frd = SDone (RErr code) st' -> 0 < r_err st'.
+Proof.
+  unfold comp_step. cbv zeta.
+  destruct (len (out ++ takeN (N.min (n - len out) (len (r_dc st))) (r_dc st)) =? n); [discriminate|].
+  destruct (0 <? N.min (n - len out) (len (r_dc st))); [discriminate|].
+  match goal with |- context [if r_eof ?s then _ else _] => destruct (r_eof s); [discriminate|] end.
+  match goal with |- context [if ?cnd then SCont _ _ _ else _] => destruct cnd; [discriminate|] end.
+  match goal with |- context [step_init hd ?s] => destruct (step_init hd s) as [st3|ste] end.
+  2:{ intros E. injection E as _ <-. rsimpl. lia. }
+  unfold step_chunk. destruct (r_idx st3) as [|ci nexti]; [discriminate|].
+  destruct (r_loc st3 =? c_clen ci).
+  - unfold end_dchunk, validate_current. destruct (r_chash st3) as [acc|].
+    + match goal with |- context [if ?ok then Some _ else None] => destruct ok end.
+      * destruct (backend_end_dchunk zdecomp hd (set_chash st3 None) ud (c_ulen ci)) as [[st5|] ste]; [discriminate|].
+        intros E. injection E as _ <-. rsimpl. lia.
+      * intros E. injection E as _ <-. rsimpl. lia.
+    + intros E. injection E as _ <-. rsimpl. lia.
+  - destruct frd; [intros E; injection E as _ <-; rsimpl; lia|]. cbv zeta.
+    match goal with |- context [match ?fh with Some _ => _ | None => SDone _ _ end] => destruct fh as [fh'|] end.
+    + match goal with |- context [match ?ch with Some _ => _ | None => SDone _ _ end] => destruct ch as [ch'|] end; [discriminate|].
+      intros E. injection E as _ <-. rsimpl. lia.
+    + intros E. injection E as _ <-. rsimpl. lia.
+Qed.
+
+Lemma comp_loop_err ud n fuel : forall st out frd code st',
+  comp_loop H zdecomp hd fuel ud n st out frd = (RErr code, st') -> 0 < r_err st'.
+Proof.
+  induction fuel as [|fuel IH]; intros st out frd code st' E; cbn [comp_loop] in E; [discriminate|].
+  destruct (comp_step H zdecomp hd ud n st out frd) as [st1 out1 frd1|r st1] eqn:Es.
+  - exact (IH _ _ _ _ _ E).
+  - injection E as -> <-. exact (comp_step_err ud n st out frd code st1 Es).
+Qed.
+
+Lemma import_dict_err fuel st st1 :
+  import_dict H zdecomp hd fuel st = (false, st1) -> 0 < r_err st1.
+Proof.
+  unfold import_dict. destruct (0 <? r_err st) eqn:He.
+  { intros E. injection E as <-. now apply N.ltb_lt. }
+  destruct (first_ulen hd =? 0); [discriminate|].
+  destruct (comp_read_nd H zdecomp hd fuel st (first_ulen hd) false) as [[d| |] s] eqn:El.
+  - destruct (len d =? first_ulen hd).
+    + destruct (0 <? r_err (comp_reset s)) eqn:He2.
+      * intros E. injection E as <-. now apply N.ltb_lt.
+      * unfold comp_init, comp_reset in *. rsimpl. rewrite He2. discriminate.
+    + intros E. injection E as <-. rsimpl. lia.
+  - intros E. injection E as <-. rsimpl. lia.
+  - intros E. injection E as <-. rsimpl. lia.
+Qed.
+
+Lemma end_dchunk_none st ud ci nexti ste :
+  end_dchunk H zdecomp hd st ud ci nexti = (None, ste) -> 0 < r_err ste.
+Proof.
+  unfold end_dchunk, validate_current. destruct (r_chash st) as [acc|].
+  - match goal with |- context [if ?ok then Some _ else None] => destruct ok end.
+    + destruct (backend_end_dchunk zdecomp hd (set_chash st None) ud (c_ulen ci)) as [[st5|] s5]; [discriminate|].
+      intros E. injection E as <-. rsimpl. lia.
+    + intros E. injection E as <-. rsimpl. lia.
+  - intros E. injection E as <-. rsimpl. lia.
+Qed.
+
+Lemma gcd_main_err fuel s k n c next code st' :
+  dict_fact s -> gcd_main fuel s k n c next = (RErr code, st') -> 0 < r_err st'.
+Proof.
+  intros Hdf E. unfold gcd_main in E. unfold comp_init, comp_reset, reset_comp_data in E. rsimpl.
+  destruct (0 <? r_err s) eqn:Her.
+  { injection E as _ <-. rsimpl. now apply N.ltb_lt. }
+  cbv iota in E. rsimpl.
+  set (ud := match k with O => false | _ => true end) in *.
+  match type of E with context [comp_read H zdecomp hd fuel ?x n ud] => set (st3 := x) in * end.
+  assert (Hd3 : r_dict st3 = r_dict s) by reflexivity.
+  assert (Hs3 : r_started st3 = true) by reflexivity.
+  assert (He3 : r_err st3 = r_err s) by reflexivity.
+  destruct (comp_read H zdecomp hd fuel st3 n ud) as [[o'| |] st4] eqn:Ecr; try discriminate.
+  - destruct ((c_ulen c <=? n) && Nat.eqb (length (r_idx st4)) (length (c :: next))); [|discriminate].
+    destruct ((r_loc st4 =? c_clen c) && match r_dc st4 with [] => true | _ => false end).
+    + destruct (0 <? r_err st4) eqn:He4; [injection E as _ <-; now apply N.ltb_lt|].
+      destruct (end_dchunk H zdecomp hd st4 ud c next) as [[st5|] ste] eqn:Ee; [discriminate|].
+      injection E as _ <-. exact (end_dchunk_none _ _ _ _ _ Ee).
+    + injection E as _ <-. rsimpl. lia.
+  - injection E as -> <-.
+    unfold comp_read in Ecr. rewrite He3, Her, Hs3, Hd3 in Ecr. cbn [negb] in Ecr. cbv iota in Ecr.
+    destruct (n =? 0); [discriminate|].
+    assert (Hnoimp : ud && (0 <? first_ulen hd) && match r_dict s with None => true | Some _ => false end = false).
+    { destruct Hdf as [[E0 _]|[_ (d0 & E1 & _)]].
+      - rewrite E0. change (0 <? 0) with false. rewrite andb_false_r. reflexivity.
+      - rewrite E1. apply andb_false_r. }
+    rewrite Hnoimp in Ecr. exact (comp_loop_err _ _ _ _ _ _ _ _ Ecr).
+Qed.
+
+Lemma gcd_fail fuel st k n code st' :
+  DI st -> zck_get_chunk_data H zdecomp hd f fuel st k n = (RErr code, st') -> 0 < r_err st' \/ DI st'.
+Proof.
+  intros HD E. rewrite gcd_unfold in E. destruct (skipn k cks) as [|c next] eqn:Hsk.
+  { injection E as _ <-. now right. }
+  destruct (0 <? r_err st) eqn:Her.
+  { injection E as _ <-. left. now apply N.ltb_lt. }
+  destruct (c_ulen c =? 0); [discriminate|].
+  destruct ((0 <? first_ulen hd) && match r_dict st with None => true | Some _ => false end) eqn:Hcond.
+  - apply andb_true_iff in Hcond. destruct Hcond as [Hfu Hdn]. apply N.ltb_lt in Hfu.
+    assert (Hdn' : r_dict st = None) by (destruct (r_dict st); [discriminate|reflexivity]).
+    assert (Hfr : fresh st).
+    { destruct HD as [[[A1 _]|[_ (d0 & A2 & _)]]|(_ & _ & A3)]; [lia|congruence|exact A3]. }
+    unfold comp_init in E.
+    change (r_err (comp_reset (seek f st (data_offset hd)))) with (r_err st) in E. rewrite Her in E. cbv iota in E.
+    change (r_started (comp_reset (seek f st (data_offset hd)))) with false in E. cbv iota in E.
+    destruct (import_dict H zdecomp hd fuel (set_started (comp_reset (seek f st (data_offset hd))) true)) as [[|] st1] eqn:Ei.
+    + apply N.ltb_ge in Her.
+      pose proof (import_sound fuel st st1 ltac:(lia) Hfr Hdn' Hfu Ei) as Hdf.
+      left. exact (gcd_main_err fuel st1 k n c next code st' Hdf E).
+    + injection E as _ <-. left. exact (import_dict_err _ _ _ Ei).
+  - assert (Hdf : dict_fact st).
+    { destruct HD as [Hdf|(A1 & A2 & _)]; [exact Hdf|]. rewrite A2 in Hcond. apply N.ltb_lt in A1. rewrite A1 in Hcond. discriminate. }
+    left. exact (gcd_main_err fuel st k n c next code st' Hdf E).
+Qed.
+
+(** a stored-data request only moves the file position *)
+Lemma gccd_state st k n r st' :
+  zck_get_chunk_comp_data hd f st k n = (r, st') ->
+  r_err st' = r_err st /\ (DI st -> DI st').
+Proof.
+  unfold zck_get_chunk_comp_data. destruct (skipn k cks) as [|c next].
+  { intros E. injection E as _ <-. split; [reflexivity|exact (fun x => x)]. }
+  destruct (0 <? r_err st). { intros E. injection E as _ <-. split; [reflexivity|exact (fun x => x)]. }
+  destruct (c_clen c =? 0). { intros E. injection E as _ <-. split; [reflexivity|exact (fun x => x)]. }
+  intros E. injection E as _ <-. unfold seek, set_rest. rsimpl. split; [reflexivity|].
+  unfold DI, dict_fact, fresh. rsimpl. exact (fun x => x).
+Qed.
+
+(** requests with arbitrary buffer sizes *)
+Inductive greq := GData (k : nat) (n : N) | GStored (k : nat) (n : N).
+Fixpoint run_greqs (fuel : nat) (st : rstate) (l : list greq) : list rres :=
+  match l with
+  | [] => []
+  | GData k n :: t => let (r, st') := zck_get_chunk_data H zdecomp hd f fuel st k n in r :: run_greqs fuel st' t
+  | GStored k n :: t => let (r, st') := zck_get_chunk_comp_data hd f st k n in r :: run_greqs fuel st' t
+  end.
+
+Definition greq_sound (r : greq) (res : rres) : Prop :=
+  match r, res with
+  | GData k n, ROk o =>
+      forall c next, skipn k cks = c :: next -> 0 < c_ulen c -> c_ulen c <= n ->
+        digest_ok c /\ spec_chunk_content zdecomp hd f k = Some (takeN (c_ulen c) o)
+  | _, _ => True
+  end.
+
+Lemma run_greqs_err fuel : forall l st, 0 < r_err st -> Forall2 greq_sound l (run_greqs fuel st l).
+Proof.
+  induction l as [|[k n|k n] l IH]; intros st He; cbn [run_greqs]; [constructor| |].
+  - rewrite gcd_unfold. apply N.ltb_lt in He. destruct (skipn k cks); [|rewrite He];
+      (constructor; [exact I|apply IH; now apply N.ltb_lt]).
+  - destruct (zck_get_chunk_comp_data hd f st k n) as [r st'] eqn:E.
+    destruct (gccd_state _ _ _ _ _ E) as [He' _].
+    assert (Hr : greq_sound (GStored k n) r) by exact I.
+    constructor; [exact Hr|apply IH; lia].
+Qed.
+
+Theorem run_greqs_sound fuel : forall l st,
+  DI st -> ~ In RFuel (run_greqs fuel st l) -> Forall2 greq_sound l (run_greqs fuel st l).
+Proof.
+  induction l as [|[k n|k n] l IH]; intros st HD Hnf; cbn [run_greqs] in *; [constructor| |].
+  - destruct (zck_get_chunk_data H zdecomp hd f fuel st k n) as [r st'] eqn:E.
+    destruct r as [o|code|].
+    + constructor.
+      * intros c next Hsk Hu Hle. destruct (gcd_sound fuel st k n c next o st' HD Hsk E) as [_ Hc]. exact (Hc Hu Hle).
+      * destruct (skipn k cks) as [|c next] eqn:Hsk.
+        { rewrite gcd_unfold, Hsk in E. discriminate. }
+        destruct (gcd_sound fuel st k n c next o st' HD Hsk E) as [HD' _].
+        apply IH; [exact HD'|]. intros Hin. apply Hnf. now right.
+    + constructor; [exact I|]. destruct (gcd_fail fuel st k n code st' HD E) as [He|HD'].
+      * now apply run_greqs_err.
+      * apply IH; [exact HD'|]. intros Hin. apply Hnf. now right.
+    + exfalso. apply Hnf. now left.
+  - destruct (zck_get_chunk_comp_data hd f st k n) as [r st'] eqn:E.
+    destruct (gccd_state _ _ _ _ _ E) as [_ HD'].
+    constructor; [exact I|]. apply IH; [now apply HD'|]. intros Hin. apply Hnf. now right.
+Qed.
+
+Lemma open_DI : DI (open_state hd f).
+Proof.
+  destruct (N.eq_dec (first_ulen hd) 0) as [E|E].
+  - left. left. split; [exact E|reflexivity].
+  - right. split; [lia|]. split; [reflexivity|]. repeat split; reflexivity.
+Qed.
 End RequestAPI.
